@@ -167,6 +167,10 @@ def regenerate(ctx=None):
         regenerate_programs_groups()
     except Exception:
         pass
+    try:    # C07 translation validation: the per-format packet-variable programs
+        regenerate_programs_fmt(ctx)
+    except Exception:
+        pass
     return txt
 
 
@@ -535,6 +539,84 @@ def regenerate_programs_groups():
     f = d / "ProgramsGroups.lean"
     if not f.exists() or f.read_text() != txt:
         tmp = d / "ProgramsGroups.lean.tmp"
+        tmp.write_text(txt)
+        tmp.replace(f)
+    return txt
+
+
+# ---- C07 translation validation: the per-format packet-variable programs ---------------------------------------
+FMT_KINDS = [("r64", "read64", 0), ("r32", "read32", 0), ("rar", "readarr", 0), ("wrg", "writereg", 1), ("war", "writearr", 1),
+             ("wc1", "writeconst", 2), ("wc2", "writeconst", 2), ("ia1", "iadd", 3), ("ia2", "iadd", 3)]
+FMT_ARGS = {"wc1": 0xf1e2d3c4b5a69788, "wc2": 0x12, "ia1": 5, "ia2": -300}
+FMT_SIZES = [40, 14, 30, 63]
+
+
+def fmt_family():
+    """the finite family C07 quantifies over, as c07.py enumerates it (c07.FMTS x statement shapes), each member with a
+    fixed guard size N and offset p (varied deterministically over the family, the last guarded offset included)"""
+    from .props import c07
+    fam = []
+    for fi, fmt in enumerate(c07.FMTS):
+        c = fmt[-1]
+        n = c07.SZ[c.lower()]
+        order = {"": 0, "<": 1}.get(fmt[:-1], 2)
+        och = {"": "n", "<": "l", ">": "g", "!": "x"}[fmt[:-1]]
+        for ki, (tag, op, kind) in enumerate(FMT_KINDS):
+            if op in ("readarr", "writearr") and (len(fmt) == 2 or c.islower()):
+                continue
+            N = FMT_SIZES[(fi + ki) % 4]
+            p = [3, 0, N + 1 - n, 6][(fi // 8 + fi + 2 * ki) % 4]
+            arg = None
+            if tag in FMT_ARGS:
+                arg = c07.wrap(fmt, FMT_ARGS[tag]) if kind == 2 else FMT_ARGS[tag]
+            fam.append({"id": f"{tag}_{och}_{'s' if c.islower() else 'u'}{n}", "name": f"{op} {fmt}" + ("" if arg is None else f" {arg}"),
+                        "fmt": fmt, "op": op, "kind": kind, "n": n, "signed": c.islower(), "order": order, "long": op != "read32",
+                        "reg": 2 if kind == 0 else 3 if kind == 1 else 0, "p": p, "N": N, "arg": arg})
+    return fam
+
+
+def render_programs_fmt():
+    """C07 translation validation: for every member of `fmt_family()` the REAL program (XDP subclass with a PacketVar,
+    assembled by /repo's generator through c07.build) as a Lean instruction list, plus the table `fmtTable` of the
+    members (format, shape, register, offset, guard size, constant) the proofs in Ebv/Props/C07TV*.lean quantify over;
+    a program the generator refuses becomes `[]` (the proofs then fail)"""
+    from . import interp
+    from .props import c07
+    head = ["/- REGENERATED from /repo on every run by harness/vh/extract.py (render_programs_fmt); do not edit. -/",
+            "import Ebv.Model.Ebpf", "namespace Ebv.Programs", "open Ebv.Ebpf",
+            "/-- one member of the packet-variable family: kind 0 read / 1 write from register / 2 write constant / 3 in-place add;",
+            "order 0 native / 1 `<` / 2 `>` or `!`; `reg` destination (reads) or source (register writes) -/",
+            "structure FmtProg where", "  name : String", "  kind : Nat", "  n : Nat", "  signed : Bool", "  order : Nat",
+            "  long : Bool", "  reg : Nat", "  p : Nat", "  N : Nat", "  arg : Int", "  prog : List Insn"]
+    from ebpfcat.xdp import XDPExitCode
+    body, groups = [f"def xdpPass : Nat := {int(XDPExitCode.PASS.value)}"], {}
+    for m in fmt_family():
+        try:
+            code = c07.build(m["fmt"], m["op"], m["p"], m["arg"], m["N"], "min")
+            if isinstance(code, str):
+                raise ValueError(code)
+            rows = [f"⟨{interp.opval(i.opcode)}, {int(i.dst)}, {int(i.src)}, {int(i.off)}, {int(i.imm)}⟩" for i in code]
+        except Exception:
+            rows = []
+        body.append(f"def fmt_{m['id']} : List Insn := [" + ", ".join(rows) + "]")
+        b = lambda x: "true" if x else "false"
+        body.append(f"def fmtE_{m['id']} : FmtProg := ⟨\"{m['name']}\", {m['kind']}, {m['n']}, {b(m['signed'])}, {m['order']}, "
+                    f"{b(m['long'])}, {m['reg']}, {m['p']}, {m['N']}, {0 if m['arg'] is None else int(m['arg'])}, fmt_{m['id']}⟩")
+        groups.setdefault(m["id"].split("_")[0], []).append(f"fmtE_{m['id']}")
+    for tag, names in groups.items():
+        body.append(f"def fmtTable_{tag} : List FmtProg := [" + ", ".join(names) + "]")
+    body.append("def fmtTable : List FmtProg := " + " ++ ".join(f"fmtTable_{t}" for t in groups))
+    return "\n".join(head + body + ["end Ebv.Programs"]) + "\n"
+
+
+def regenerate_programs_fmt(ctx=None):
+    """write lean/Ebv/Generated/ProgramsFmt.lean only when its content changes (keeps lake's build cache valid)"""
+    txt = render_programs_fmt()
+    d = core.LEAN / "Ebv" / "Generated"
+    d.mkdir(parents=True, exist_ok=True)
+    f = d / "ProgramsFmt.lean"
+    if not f.exists() or f.read_text() != txt:
+        tmp = d / "ProgramsFmt.lean.tmp"
         tmp.write_text(txt)
         tmp.replace(f)
     return txt
